@@ -663,5 +663,13 @@ func main() {
 		},
 		QuickDeadline: 150, ThoroughDeadline: 840,
 		Run: run,
+		Extra: func(tier string, cov map[string]interface{}) {
+			var fs []string
+			for _, f := range families(tier == "thorough") {
+				fs = append(fs, fmt.Sprintf("%s: macro names %v, 0-%d parameters x every default subset, %d default kinds, %d spacings, %d argument kinds, %d bodies, %d sites, %d padding variants, %d ways of reaching per case",
+					f.name, f.names, f.maxN, len(f.defSt), len(f.spacings), len(f.argSt), len(f.bodies), len(f.sites), len(f.pads), nReaches))
+			}
+			cov["families"] = fs
+		},
 	})
 }
